@@ -58,6 +58,7 @@ theorem addAll_range (lim : Nat) : ∀ (k m : Nat), m + k ≤ lim →
     intro m h
     have hstep : step lim (List.range m) m = some (m, List.range (m + 1)) := by
       unfold step
+      simp only
       rw [idxOf_range_self]
       simp only [List.length_range, Nat.lt_irrefl, if_false]
       rw [if_neg (by omega)]
